@@ -497,8 +497,18 @@ func runInBubble(cs Case, res *Result, dial DialFunc) {
 	}
 	atts := make([]*Attempt, scn.NConns)
 	var lnCloseOnce sync.Once
+	var tmu sync.Mutex
+	var acceptorStart, lnCloseAt time.Time // virtual times; zero = never
+	markLnClose := func() {
+		tmu.Lock()
+		if lnCloseAt.IsZero() {
+			lnCloseAt = time.Now()
+		}
+		tmu.Unlock()
+	}
 	closeListenerAsync := func(why string) {
 		lnCloseOnce.Do(func() {
+			markLnClose()
 			h.trace("listener.Close() issued (%s)", why)
 			go func() {
 				err := ln.Close()
@@ -580,6 +590,9 @@ func runInBubble(cs Case, res *Result, dial DialFunc) {
 	accepted := make(chan transport.CapableConn, 16)
 	var inConns []transport.CapableConn
 	startAcceptor := func() {
+		tmu.Lock()
+		acceptorStart = time.Now()
+		tmu.Unlock()
 		go func() {
 			for {
 				c, err := ln.Accept()
@@ -721,6 +734,7 @@ func runInBubble(cs Case, res *Result, dial DialFunc) {
 			a.cancel()
 		}
 	}
+	markLnClose()
 	h.step("close listener", func() { h.trace("listener.Close(): %v", ln.Close()) })
 	// a connection that was accepted after the collection window is closed as well
 	for {
@@ -769,16 +783,26 @@ func runInBubble(cs Case, res *Result, dial DialFunc) {
 				key += "/force-pnet"
 			}
 			if i == 1 {
-				// inbound connections whose upgrade completed, that the harness never got from Accept and
-				// whose session is closed: the only code that could still release them is the listener
-				dropped := 0
-				for _, mc := range in.Muxer.Conns() {
-					if mc.IsClosed() {
-						dropped++
+				// Attribute the leak to listener.Accept's "skip a connection that is already closed" path
+				// only when nothing else can explain it: an inbound connection whose upgrade completed, whose
+				// session is closed, that the harness never got from Accept although an Accept call was
+				// pending before the connection's accept timeout and before the listener was closed (so
+				// Accept, and neither the timeout path nor Close's drain, consumed it).
+				tmu.Lock()
+				ta, tc := acceptorStart, lnCloseAt
+				tmu.Unlock()
+				skipped := 0
+				created := in.Muxer.CreatedAt()
+				for j, mc := range in.Muxer.Conns() {
+					if !mc.IsClosed() || ta.IsZero() {
+						continue
+					}
+					if ta.Before(created[j].Add(AcceptTimeout)) && (tc.IsZero() || ta.Before(tc)) && !tc.Before(created[j]) {
+						skipped++
 					}
 				}
-				if n := len(in.Muxer.Conns()) - len(inConns); n > 0 && dropped >= n && after.System.NumConnsInbound == n {
-					key += "/upgraded-conn-closed-before-accept"
+				if n := len(in.Muxer.Conns()) - len(inConns); n > 0 && skipped >= n && after.System.NumConnsInbound == n {
+					key += "/closed-conn-skipped-by-accept"
 				}
 			}
 			h.vio(key, "%s side: resource usage did not return to its previous value after the attempt was over and everything was closed: %s",
